@@ -26,7 +26,7 @@ PROBES = ["kill_inside_copy", "kill_between_files", "kill_holding_lock", "load_d
           "lock_contended", "lock_timeout", "refresh_skipped_in_interval", "refresh_ran",
           "load_after_crash", "torn_prefix_delivered", "two_populators_overlap", "partnered_load",
           "load_found_version_missing_then_recovered", "kill_inside_timestamp_write", "s1_enum_kill_beyond_last_step",
-          "populator_interrupted_by_io_error"]
+          "populator_interrupted_by_io_error", "waiter_gave_up_at_timeout", "load_not_judged_lock_timeout"]
 RULE = ("Runs 0..S1_N-1 enumerate every crash point (kill before step k, plain and with a torn variant of a pending "
         "write, k = 0..139; probe s1_enum_kill_beyond_last_step shows the enumeration passed the last step) of the "
         "population of one (quick) / six (thorough) fixed file subsets, each followed by fresh loads of every file "
@@ -688,7 +688,7 @@ def _check_history(W, sc, sim, events, procs_meta, violations, probe, lockworld,
                 probe("load_not_judged_because_of_stall_or_jump")
                 continue
             if p.state == "failed" and any(ev["ev"] == "enter-raised" and ev["pid"] == p.pid and ev["exc"] == "CacheException"
-                                           and "Could not lock" in ev["msg"] for ev in events):
+                                           and "Could not lock" in ev["msg"] and ev["t1"] - ev["t0"] >= 0.99 for ev in events):
                 # the lock was held by a live process for longer than the lock timeout: outside the timing assumption
                 probe("load_not_judged_lock_timeout")
                 continue
@@ -776,6 +776,13 @@ def _check_history(W, sc, sim, events, procs_meta, violations, probe, lockworld,
                     violations.append(Violation(
                         "O-timeout", "a waiter needed %.3f simulated s to give up (timeout 1 s + check interval 0.25 s)" % waited,
                         "gave-up-too-late").record(PROP))
+                elif waited < 1.0 - 0.26:
+                    # "cannot get the lock within its timeout": giving up before the timeout has run establishes nothing
+                    violations.append(Violation(
+                        "O-timeout", "a waiter gave up with CacheException after only %.3f simulated s of its 1 s lock timeout" % waited,
+                        "gave-up-before-timeout").record(PROP))
+                else:
+                    probe("waiter_gave_up_at_timeout")
     # ---- O-interval: a refresh that starts within the interval after a recorded timestamp is skipped.
     # t0 = content of last_update.txt read by the oracle at the instant CacheLock.__enter__ was called,
     # t  = the clock value the library read inside __enter__; asserted only when no other process touched
